@@ -16,7 +16,7 @@ prop("C14", "topic filters and ServeMux dispatch", "exploration",
      "(mux); distinct = distinct (filter, topic) pairs / distinct mux cases (FNV-64 of the case).",
      [
          dict(tests="^TestVerifC14_Exhaustive$", exhaustive_once=True),
-         dict(tests="^TestVerifC14_(Pair|Mux)$", checks_quick=20000, checks_thorough=200000, shards=8),
+         dict(tests="^TestVerifC14_(Pair|Mux)$", checks_quick=20000, checks_thorough=600000, shards=8),
      ],
      assumptions=["topics are non-empty, contain no wildcard characters and do not start with '$' (the property's domain)",
                   "reference matcher refMatch/refValidFilter written from MQTT 3.1.1 section 4.7 is itself correct"],
@@ -28,8 +28,8 @@ prop("C04", "inbound QoS 0/1/2 flows", "exploration",
      "registered half-way, generated read chunking; the observed timeline of handler entries/exits and written acks must equal "
      "the reference automaton's. Non-trivial = the sequence releases a stored QoS2 message, retransmits a QoS2 PUBLISH or "
      "repeats a PUBREL; distinct = FNV-64 of the case JSON.",
-     [dict(tests="^TestVerifC04_Flows$", checks_quick=6000, checks_thorough=60000, shards=12,
-           fuzz=[dict(target="FuzzVerifC04", time="90s", workers=8)])],
+     [dict(tests="^TestVerifC04_Flows$", checks_quick=6000, checks_thorough=180000, shards=12,
+           fuzz=[dict(target="FuzzVerifC04", time="180s", workers=8)])],
      assumptions=["the broker re-uses an in-flight QoS2 packet id only to retransmit the same message (conforming broker)",
                   "a PUBCOMP in reply to an unknown PUBREL is permitted but not required"])
 
@@ -42,9 +42,9 @@ prop("C05", "emitted packets well-formed, fields as requested", "exploration",
      "Non-trivial = remaining length >= 128, or CONNECT with >= 2 optional fields, or >= 2 filters, or a multi-byte topic; "
      "distinct = FNV-64 of the case JSON (API cases) / the length (codec cases).",
      [dict(tests="^TestVerifC05_LenCodecAll$", exhaustive_once=True),
-      dict(tests="^TestVerifC05_Len$", checks_quick=6000, checks_thorough=40000, shards=4),
-      dict(tests="^TestVerifC05_Packets$", checks_quick=5000, checks_thorough=40000, shards=12),
-      dict(tests="^TestVerifC05_ViaRetry$", checks_quick=1500, checks_thorough=8000, shards=6)],
+      dict(tests="^TestVerifC05_Len$", checks_quick=6000, checks_thorough=120000, shards=4),
+      dict(tests="^TestVerifC05_Packets$", checks_quick=5000, checks_thorough=120000, shards=12),
+      dict(tests="^TestVerifC05_ViaRetry$", checks_quick=1500, checks_thorough=24000, shards=6)],
      assumptions=["inputs the API documents as panics are excluded (strings > 65535 bytes, packets > 268435455 bytes, QoS>2 in Subscribe)",
                   "password without user name, empty topics, wildcards in topic names, invalid UTF-8 are not generated",
                   "len(payload) == MaxPayloadLen is not generated (the code rejects it, the property only says 'over the maximum')"],
@@ -62,12 +62,12 @@ prop("C06", "arbitrary broker bytes never crash the client", "exploration",
      "A process death (panic in a library goroutine, runtime out-of-memory under an 8 GB address-space cap) is a violation "
      "with the case in flight as replay. Non-trivial = parser input with >= 1 content byte / header with >= 1 length byte / "
      ">= 1 valid packet before the malformed one; distinct = FNV-64 of the case JSON.",
-     [dict(tests="^TestVerifC06_Parsers$", checks_quick=30000, checks_thorough=300000, shards=4,
-           fuzz=[dict(target="FuzzVerifC06Parsers", time="90s", workers=6)]),
-      dict(tests="^TestVerifC06_ReadPacket$", checks_quick=8000, checks_thorough=40000, shards=6, as_limit_gb=8,
-           fuzz=[dict(target="FuzzVerifC06ReadPacket", time="90s", workers=4)]),
-      dict(tests="^TestVerifC06_Connected$", checks_quick=4000, checks_thorough=40000, shards=6, as_limit_gb=8),
-      dict(tests="^TestVerifC06_InFlight$", checks_quick=3000, checks_thorough=30000, shards=4)],
+     [dict(tests="^TestVerifC06_Parsers$", checks_quick=30000, checks_thorough=900000, shards=4,
+           fuzz=[dict(target="FuzzVerifC06Parsers", time="180s", workers=6)]),
+      dict(tests="^TestVerifC06_ReadPacket$", checks_quick=8000, checks_thorough=120000, shards=6, as_limit_gb=8,
+           fuzz=[dict(target="FuzzVerifC06ReadPacket", time="180s", workers=4)]),
+      dict(tests="^TestVerifC06_Connected$", checks_quick=4000, checks_thorough=120000, shards=6, as_limit_gb=8),
+      dict(tests="^TestVerifC06_InFlight$", checks_quick=3000, checks_thorough=90000, shards=4)],
      assumptions=["only the malformed classes listed in the property are asserted to end the link (e.g. an over-long PUBACK body is not)",
                   "ill-formed UTF-8 and encoded surrogates in topics are 'don't care' (accepting or rejecting both pass)"])
 
@@ -78,8 +78,8 @@ prop("C20", "private copies behind ServeMux / ServeAsync", "exploration",
      "dispatched message in all six fields, the caller's message is unchanged after synchronous dispatch, no payload backing "
      "array is shared; also run under the race detector. Non-trivial = >= 2 matching handlers with >= 1 in-place payload "
      "mutation, or an async dispatch of a non-empty payload; distinct = FNV-64 of the case JSON.",
-     [dict(tests="^TestVerifC20_Copies$", checks_quick=20000, checks_thorough=200000, shards=6),
-      dict(tests="^TestVerifC20_Copies$", race=True, checks_quick=2000, checks_thorough=30000, shards=6)])
+     [dict(tests="^TestVerifC20_Copies$", checks_quick=20000, checks_thorough=600000, shards=6),
+      dict(tests="^TestVerifC20_Copies$", race=True, checks_quick=2000, checks_thorough=90000, shards=6)])
 
 prop("C15", "packet identifiers non-zero and unique among outstanding requests", "exploration",
      "allocator: generated counter start values (biased to 0xFFF0..0x10010, 0xFFFFFFF0.., low 16 bits near wrap) x 1..16 "
@@ -90,12 +90,12 @@ prop("C15", "packet identifiers non-zero and unique among outstanding requests",
      "requests, caller-chosen id unchanged; additionally (ViaRetry) E4 histories with cuts through the ReconnectClient: a "
      "caller-chosen id is unchanged on every emission (deferred and retransmitted ones included), no emitted id is 0. Non-trivial = >= 2 goroutines/callers or the window crosses 0xFFFF->1; distinct = "
      "FNV-64 of the case JSON.",
-     [dict(tests="^TestVerifC15_(Alloc|FullCycle)$", checks_quick=1500, checks_thorough=20000, shards=4),
-      dict(tests="^TestVerifC15_Alloc$", race=True, checks_quick=300, checks_thorough=3000, shards=4),
-      dict(tests="^TestVerifC15_Wire$", checks_quick=2500, checks_thorough=30000, shards=6),
-      dict(tests="^TestVerifC15_Wire$", race=True, checks_quick=300, checks_thorough=3000, shards=2),
-      dict(tests="^TestVerifC15_Wrap$", checks_quick=3, checks_thorough=12, shards=2),
-      dict(tests="^TestVerifC15_ViaRetry$", checks_quick=1500, checks_thorough=8000, shards=4)],
+     [dict(tests="^TestVerifC15_(Alloc|FullCycle)$", checks_quick=1500, checks_thorough=60000, shards=4),
+      dict(tests="^TestVerifC15_Alloc$", race=True, checks_quick=300, checks_thorough=9000, shards=4),
+      dict(tests="^TestVerifC15_Wire$", checks_quick=2500, checks_thorough=90000, shards=6),
+      dict(tests="^TestVerifC15_Wire$", race=True, checks_quick=300, checks_thorough=9000, shards=2),
+      dict(tests="^TestVerifC15_Wrap$", checks_quick=3, checks_thorough=36, shards=2),
+      dict(tests="^TestVerifC15_ViaRetry$", checks_quick=1500, checks_thorough=24000, shards=4)],
      assumptions=["caller-chosen identifiers are distinct from each other and outside the allocator's upcoming window (caller's responsibility)",
                   "known finding D12 (re-use at allocation distance >= 65535) is excluded by construction and reported as KNOWN-FINDING"])
 
@@ -107,8 +107,8 @@ prop("C07", "a request completes only on its own acknowledgement", "exploration"
      "sync marker; at most one wrong-length SUBACK, sent last. Oracle on the global event log: return(r) after sent(own final "
      "ack of r); PUBREL after PUBREC; nobody returns while its ack is unsent; results/codes as sent; ErrInvalidSubAck on a count "
      "mismatch. Non-trivial = >= 2 requests outstanding and >= 1 foreign item; distinct = FNV-64 of the case JSON.",
-     [dict(tests="^TestVerifC07_AckRouting$", checks_quick=2500, checks_thorough=25000, shards=12),
-      dict(tests="^TestVerifC07_AckRouting$", race=True, checks_quick=300, checks_thorough=3000, shards=4)])
+     [dict(tests="^TestVerifC07_AckRouting$", checks_quick=2500, checks_thorough=75000, shards=12),
+      dict(tests="^TestVerifC07_AckRouting$", race=True, checks_quick=300, checks_thorough=9000, shards=4)])
 
 prop("C19", "errors keep their cause and their retry handle", "exploration",
      "chains: rapid-generated error chains, leaf in {every exported sentinel, context.Canceled/DeadlineExceeded, io.EOF, "
@@ -120,8 +120,8 @@ prop("C19", "errors keep their cause and their retry handle", "exploration",
      "interruptions on fresh clients: the error implements ErrorWithRetry, errors.Is finds exactly the cause, Retry on a fresh "
      "client re-issues the same request (strictly decoded) and succeeds when acknowledged. Non-trivial = chain depth >= 2 with "
      ">= 1 library wrapper / every retry case; distinct = FNV-64 of the case JSON.",
-     [dict(tests="^TestVerifC19_Chains$", checks_quick=30000, checks_thorough=400000, shards=6),
-      dict(tests="^TestVerifC19_Retry$", checks_quick=3000, checks_thorough=30000, shards=8)],
+     [dict(tests="^TestVerifC19_Chains$", checks_quick=30000, checks_thorough=1200000, shards=6),
+      dict(tests="^TestVerifC19_Retry$", checks_quick=3000, checks_thorough=90000, shards=8)],
      assumptions=["error types outside the stated domain (pointer-to-non-struct errors, uncomparable value errors) are not generated",
                   "nodes hidden behind an opaque layer or reachable only via the reflection fallback are not asserted either way"])
 
@@ -135,8 +135,8 @@ prop("C13", "keep-alive detects a silent peer and only a silent peer", "fault_en
      "detector, no upper time bound); negative class: every PINGREQ answered for >= 10 intervals with a far-away timeout: no close, "
      "no redial, no ErrPingTimeout. Non-trivial = >= 3 pings before the end, a cancel during a blocked ping, silence after >= 1 "
      "answered ping, or >= 3 answered pings in the negative class; distinct = FNV-64 of the case.",
-     [dict(tests="^TestVerifC13_KeepAlive$", checks_quick=1200, checks_thorough=8000, shards=12),
-      dict(tests="^TestVerifC13_SilentPeer$", checks_quick=500, checks_thorough=3000, shards=8)],
+     [dict(tests="^TestVerifC13_KeepAlive$", checks_quick=1200, checks_thorough=24000, shards=12),
+      dict(tests="^TestVerifC13_SilentPeer$", checks_quick=500, checks_thorough=9000, shards=8)],
      assumptions=["the scripted Client decides the outcome of each ping, so machine load cannot turn 'answered' into 'late'",
                   "timers and tickers never fire early (monotonic clock)"])
 
@@ -150,8 +150,8 @@ prop("C01", "no accepted QoS>=1 publish / subscribe / unsubscribe is lost", "fau
      "detector), a budget hit while still progressing is inconclusive. Non-trivial = a fault fired while >= 1 accepted QoS>=1 "
      "request was unacknowledged, or a request was submitted before the first connection / during an outage; distinct = FNV-64 "
      "of the case JSON.",
-     [dict(tests="^TestVerifC01_NoLoss$", checks_quick=2500, checks_thorough=12000, shards=12),
-      dict(tests="^TestVerifC01_ReconnectRace$", checks_quick=2000, checks_thorough=10000, shards=8, shards_quick=2)],
+     [dict(tests="^TestVerifC01_NoLoss$", checks_quick=2500, checks_thorough=36000, shards=12),
+      dict(tests="^TestVerifC01_ReconnectRace$", checks_quick=2000, checks_thorough=30000, shards=8, shards_quick=2)],
      assumptions=["ResponseTimeout 0, keep-alive off, Disconnect never called, Transport.Write never returns io.EOF (the property's stated assumptions)",
                   "the broker eventually stays reachable: every fault fires at most once"])
 
@@ -162,7 +162,7 @@ prop("C02", "QoS 2 delivered onward exactly once across reconnects", "fault_enum
      "client wrote another packet on that connection afterwards, or it was still up at quiescence) no PUBLISH with its tag and no "
      "PUBREL with its id is ever emitted again. Non-trivial = a cut fired between the first PUBLISH and the PUBCOMP of a QoS2 "
      "message; distinct = FNV-64 of the case JSON.",
-     [dict(tests="^TestVerifC02_ExactlyOnce$", checks_quick=3000, checks_thorough=15000, shards=16)],
+     [dict(tests="^TestVerifC02_ExactlyOnce$", checks_quick=3000, checks_thorough=45000, shards=16)],
      assumptions=["broker follows MQTT-4.3.3 receiver rules and keeps session state", "one request outstanding at a time in the task goroutine (keep-alive off, DirectlyPublishQoS0 off)"])
 
 prop("C03", "submission order on the wire, also when retransmitted", "fault_enumeration",
@@ -170,7 +170,7 @@ prop("C03", "submission order on the wire, also when retransmitted", "fault_enum
      "are in submission order; over the run the first emissions of requests (PUBLISH/SUBSCRIBE/UNSUBSCRIBE, delivered or lost) "
      "are in submission order; first deliveries of QoS>=1 messages are in submission order. Non-trivial = >= 2 QoS>=1 requests "
      "pending at a fired fault; distinct = FNV-64 of the case JSON.",
-     [dict(tests="^TestVerifC03_Order$", checks_quick=2500, checks_thorough=12000, shards=16)],
+     [dict(tests="^TestVerifC03_Order$", checks_quick=2500, checks_thorough=36000, shards=16)],
      assumptions=["DirectlyPublishQoS0 off (the default mode the property is about)", "connections fail only by closing / refusal / dial errors"])
 
 prop("C12", "retransmissions are faithful", "fault_enumeration",
@@ -179,8 +179,8 @@ prop("C12", "retransmissions are faithful", "fault_enumeration",
      "over everything passed to Transport.Write (delivered or lost): first PUBLISH of a message DUP=0, later ones DUP=1 and "
      "identical in id/topic/payload/QoS/retain; QoS0 at most once; no PUBLISH after a PUBREL that was written successfully. "
      "Non-trivial = a message was emitted >= 2 times; distinct = FNV-64 of the case JSON.",
-     [dict(tests="^TestVerifC12_Retransmit$", checks_quick=2500, checks_thorough=12000, shards=12),
-      dict(tests="^TestVerifC12_RetryHandle$", checks_quick=2500, checks_thorough=25000, shards=4)],
+     [dict(tests="^TestVerifC12_Retransmit$", checks_quick=2500, checks_thorough=36000, shards=12),
+      dict(tests="^TestVerifC12_RetryHandle$", checks_quick=2500, checks_thorough=75000, shards=4)],
      assumptions=["a PUBREL whose Write failed does not count as sent for the 'no PUBLISH after PUBREL' rule"])
 
 prop("C08", "broker-side subscriptions converge to the app's calls", "fault_enumeration",
@@ -192,7 +192,7 @@ prop("C08", "broker-side subscriptions converge to the app's calls", "fault_enum
      "AlwaysResubscribe is off, every SUBSCRIBE belongs to a request whose SUBACK had not yet been received. Non-trivial = a "
      "reconnect after an acknowledged subscribe together with a repeated filter, an unsubscribe or a request pending at the "
      "fault; distinct = FNV-64 of the case JSON.",
-     [dict(tests="^TestVerifC08_Subscriptions$", checks_quick=3000, checks_thorough=15000, shards=16)],
+     [dict(tests="^TestVerifC08_Subscriptions$", checks_quick=3000, checks_thorough=45000, shards=16)],
      assumptions=["granted QoS equals requested QoS at the broker model", "quiescence is decided with the verif-tagged observation hook after the reconnect loop pushed its tasks"])
 
 prop("C17", "the registered handler follows the connection", "fault_enumeration",
@@ -202,7 +202,7 @@ prop("C17", "the registered handler follows the connection", "fault_enumeration"
      "whose marker was acknowledged reached the handler in force (the last Handle call that returned before the message became "
      "readable); handlers registered concurrently with the arrival are also acceptable; no other handler may receive it; QoS0 "
      "exactly once. Non-trivial = >= 1 judged message on a connection after the first; distinct = FNV-64 of the case JSON.",
-     [dict(tests="^TestVerifC17_Handler$", checks_quick=3000, checks_thorough=15000, shards=12)])
+     [dict(tests="^TestVerifC17_Handler$", checks_quick=3000, checks_thorough=45000, shards=12)])
 
 prop("C18", "with a response timeout a silent broker cannot stall the client", "fault_enumeration",
      E4RULE + "C18: ResponseTimeout 5..20 ms, keep-alive off; 1..3 dropAck faults (PUBACK, PUBREC, PUBCOMP, SUBACK, UNSUBACK processed by "
@@ -212,7 +212,7 @@ prop("C18", "with a response timeout a silent broker cannot stall the client", "
      "follows, and at quiescence every accepted request is acknowledged; a client idle for 3 s on a live connection with the "
      "request unacknowledged is a violation. No upper time bound is asserted. Non-trivial = >= 1 acknowledgement was dropped; "
      "distinct = FNV-64 of the case JSON.",
-     [dict(tests="^TestVerifC18_ResponseTimeout$", checks_quick=1200, checks_thorough=6000, shards=16)])
+     [dict(tests="^TestVerifC18_ResponseTimeout$", checks_quick=1200, checks_thorough=18000, shards=16)])
 
 prop("C09", "reconnect lifecycle", "fault_enumeration",
      "rapid-generated lifecycle cases against the real ReconnectClient: per dial attempt a scripted outcome from {dial error, "
@@ -226,7 +226,7 @@ prop("C09", "reconnect lifecycle", "fault_enumeration",
      "later yields a transport, none starts once the loop goroutine is gone, Disconnect returns and the loop goroutine has "
      "exited, Connect reports the cancelled context, (5) a redial follows every unexpected end (stuck detector). Non-trivial = >= 2 "
      "consecutive failures followed by a success, or a stop in a phase other than connected; distinct = FNV-64 of the case JSON.",
-     [dict(tests="^TestVerifC09_Lifecycle$", checks_quick=120, checks_thorough=700, shards=16, shards_quick=4)],
+     [dict(tests="^TestVerifC09_Lifecycle$", checks_quick=120, checks_thorough=2100, shards=16, shards_quick=4)],
      assumptions=["the Dialer honours its context (like net.Dialer); the harness releases a held dial after the stop event",
                   "an attempt whose accepting CONNACK was followed at once by a link failure may count as success or failure (lower bound uses the smaller wait)",
                   "timers never fire early"])
@@ -243,8 +243,8 @@ prop("C16", "ConnState, Err() and Done() tell the truth", "fault_enumeration",
      "connection Err()==nil and Done() closed; per connection Active/Closed/Disconnected at most once, Closed with an error. "
      "Non-trivial = >= 2 racing endings or endings racing Connect (i); >= 2 managed connections with a sample (ii); distinct = "
      "FNV-64 of the case JSON.",
-     [dict(tests="^TestVerifC16_Base$", checks_quick=6000, checks_thorough=60000, shards=8),
-      dict(tests="^TestVerifC16_Reconnect$", checks_quick=500, checks_thorough=4000, shards=8, shards_quick=2)],
+     [dict(tests="^TestVerifC16_Base$", checks_quick=6000, checks_thorough=180000, shards=8),
+      dict(tests="^TestVerifC16_Reconnect$", checks_quick=500, checks_thorough=12000, shards=8, shards_quick=2)],
      assumptions=["no order between Active and Closed is asserted (Connect can lose the race when the peer closes right after CONNACK)",
                   "'healthy' = no fault has been applied to that connection; once any ending was issued Err() is unconstrained until observed"])
 
@@ -258,8 +258,8 @@ prop("C11", "every blocking call returns on cancel or connection end", "fault_en
      "non-nil error, Done() closed and no goroutine with a (*BaseClient).serve / Connect.func1 frame left. Non-trivial = every "
      "cell except Disconnect x cause-before-call; distinct = distinct cells + distinct combinations (FNV-64 of the case JSON).",
      [dict(tests="^TestVerifC11_Grid$", exhaustive_once=True),
-      dict(tests="^TestVerifC11_Combo$", checks_quick=3000, checks_thorough=30000, shards=8),
-      dict(tests="^TestVerifC11_ReconnectGrid$", checks_quick=300, checks_thorough=2000, shards=4)],
+      dict(tests="^TestVerifC11_Combo$", checks_quick=3000, checks_thorough=90000, shards=8),
+      dict(tests="^TestVerifC11_ReconnectGrid$", checks_quick=300, checks_thorough=6000, shards=4)],
      assumptions=["requests are issued after Connect returned (a request overlapping an unfinished Connect waits for the connect lock by design)",
                   "a context cannot interrupt a blocked Transport.Write (left to the transport's deadlines): 'write' cells exist for link-end causes only",
                   "with the context finished before the call the answer is withheld too, so that success is not a legitimate outcome"],
@@ -276,8 +276,8 @@ prop("C10", "no data races, packets never interleave on the wire", "exploration"
      "client->broker stream of every connection, self-describing payloads verify, first packet of every connection is CONNECT. "
      "Non-trivial = >= 2 library calls overlapped in time (measured with enter/exit counters) and, for (ii), >= 2 connections; "
      "distinct = FNV-64 of the case JSON.",
-     [dict(tests="^TestVerifC10_Base$", race=True, checks_quick=1500, checks_thorough=15000, shards=8),
-      dict(tests="^TestVerifC10_Reconnect$", race=True, checks_quick=1500, checks_thorough=15000, shards=8, shards_quick=2)],
+     [dict(tests="^TestVerifC10_Base$", race=True, checks_quick=1500, checks_thorough=45000, shards=8),
+      dict(tests="^TestVerifC10_Reconnect$", race=True, checks_quick=1500, checks_thorough=45000, shards=8, shards_quick=2)],
      assumptions=["schedules are sampled (generated yields, GOMAXPROCS, the transport's own yields); absence of races cannot be shown",
                   "concurrent Ping calls share one response slot by design, so their outcome is not asserted"])
 
